@@ -1648,6 +1648,8 @@ def deep_sym(x):
 def m_len(interp, x):
     if isinstance(x, (SStr, TStr)):
         return x.length()
+    if hasattr(x, "sym_len"):
+        return x.sym_len()
     if isinstance(x, collections.UserString) and isinstance(x.data, (SStr, TStr)):
         return x.data.length()
     return len(x)
